@@ -135,6 +135,7 @@ class TlcResult:
         self.invariant_violated = re.findall(r"Invariant (\S+) is violated", out)
         self.property_violated = "Temporal properties were violated" in out or bool(re.search(r"Action property \S+ is violated", out))
         self.error = None
+        self.partial = False          # stopped by the time budget before the state space was exhausted
         if not self.ok and not self.invariant_violated and not self.property_violated:
             m = re.search(r"Error: (.*)", out)
             self.error = m.group(1) if m else "TLC failed (rc=%d)" % rc
@@ -185,7 +186,17 @@ def run_tlc_raw(ctx, module, cfg=None, workers=8, timeout=1200, env=None, simula
         raise ToolError("TLC timed out on %s after %ds" % (cfg, timeout))
     res = TlcResult(r.stdout, r.returncode)
     if r.returncode == 124:
-        res.error = None      # simulation stopped by the time budget
+        # stopped by the time budget: a simulation, or a model-checking run that is then reported as not exhaustive
+        res.error = None
+        res.partial = True
+        m = re.findall(r"Progress\(\d+\) at [^:]*:\d+:\d+: ([\d,]+) states generated[^,]*, ([\d,]+) distinct states found", r.stdout)
+        if m and not res.generated:
+            res.generated, res.distinct = int(m[-1][0].replace(",", "")), int(m[-1][1].replace(",", ""))
+        m = re.findall(r"Progress\((\d+)\)", r.stdout)
+        if m and not res.depth:
+            res.depth = int(m[-1])
+        if not res.invariant_violated and not res.property_violated:
+            res.ok = True
     res.wall = time.time() - t
     log("tlc %s: %d generated / %d distinct, depth %d, %.1fs%s" % (
         name, res.generated, res.distinct, res.depth, res.wall, "" if res.ok else "  [NOT OK]"))
